@@ -147,6 +147,49 @@ def arity_enforced(ctx, py: PyRepo, w: Wiring):
     ctx.ob('arity-enforced', 'scan', True, f'{n} zip(..) comparisons over the tracked stack (detector self-checked on a positive example)', '')
 
 
+def phase_sinks(ctx, py):
+    """the three phases go to three streams, each checked by the machine as its own phase: after `into_claim_phase()` the IO layer
+    writes to the stream it was given for the claim phase, after `into_proof_phase()` to the one for the proof phase - whatever
+    phase the interpreter was created in and however many switches happened before.  Decided on the value `self.out` has when the
+    method returns (private helpers of the class evaluated in place): it must be the field the constructor binds to the parameter
+    of that phase.  A stream picked by position (an iterator over the later streams, a counter) is only right for an interpreter
+    started in the first phase."""
+    from ..core.pyeval import PyEval, Decline, show
+    from ..core.pyfacts import self_method_resolver
+    io = py.find_class('IOInterpreter', 'io_interpreter') if hasattr(py, 'find_class') else None
+    if io is None or '__init__' not in io.methods:
+        return
+    SELF = ('param', 'self')
+    init = io.methods['__init__']
+    params = [a.arg for a in init.args.args[1:]]
+    # field <- constructor parameter
+    field_of = {}
+    for st in ast.walk(init):
+        if isinstance(st, ast.Assign) and len(st.targets) == 1 and isinstance(st.targets[0], ast.Attribute) and isinstance(st.targets[0].value, ast.Name) \
+                and st.targets[0].value.id == 'self' and isinstance(st.value, ast.Name) and st.value.id in params:
+            field_of[st.value.id] = st.targets[0].attr
+    # the stream parameters: bound to a field each, named after the phase and not the first stream (`out`)
+    streams = [p_ for p_ in params if p_ in field_of and 'out' in p_]
+    want = {'into_claim_phase': next((p_ for p_ in streams if 'claim' in p_), None), 'into_proof_phase': next((p_ for p_ in streams if 'proof' in p_), None)}
+    for trans, par in want.items():
+        if trans not in io.methods or par is None or par not in field_of:
+            continue
+        fn = io.methods[trans]
+        ev = PyEval(resolver=self_method_resolver(py, io, SELF, only_private=True))
+        try:
+            paths = [p_ for p_ in ev.paths(fn) if p_.end[0] != 'raise']
+        except Decline as d:
+            ctx.advisory(f'IOInterpreter.{trans}: not read by the evaluator ({d}); rule phase-sink is not instantiated')
+            continue
+        outs = [p_.env.get(('attr', SELF, 'out')) for p_ in paths]
+        good = ('attr', SELF, field_of[par])
+        ok = bool(paths) and all(o == good for o in outs)
+        ctx.ob('phase-reset', f'IOInterpreter.{trans}/writes-to-its-own-stream', ok,
+               f'after {trans}() the IO layer must write to `self.{field_of[par]}` (the stream given for that phase); on some path `self.out` is '
+               f'{show(next((o for o in outs if o != good), None)) if paths else "?"} - the bytes of the phase land in another phase\'s stream '
+               f'and the machine checking that stream ends with another claim queue than the tracker', py.where(io.module, fn))
+
+
 def run(ctx):
     py = PyRepo.get()
     r = Rust.get()
@@ -286,6 +329,7 @@ def run(ctx):
                 ctx.ob('phase-reset', f'{c_.name}.{trans}/passes-on', ok,
                        f'{c_.name}.{trans} must call super().{trans}() exactly once on every path (the phase, the tracked stack and the '
                        f'output stream are switched by different classes of the chain)', py.where(c_.module, mf.node))
+    phase_sinks(ctx, py)
     memory_and_load(ctx, py, w, arms, mem_py, mem_rs)
     # the terms the tracker holds are the terms the machine builds: slot / operand wiring of every call (shared with C02)
     from . import c02, c05
